@@ -29,48 +29,85 @@ from autofit.graphical.expectation_propagation import visualise as _visualise
 
 # plotting the evidence / KL history (matplotlib, ~0.7 s per run) is irrelevant to the bookkeeping
 _visualise.Visualise.__call__ = lambda self: None
-from autofit.mapper.variable import Variable
+from autofit.mapper.variable import Variable, Plate
+import numpy as np
+from types import SimpleNamespace
 from autofit.messages.normal import NormalMessage
 
 
+FLAT_W = 1   # plated cases: variable b, plate element k  <->  flattened id b * FLAT_W + k
+
+
 def nat(mf, index):
-    """MeanField -> sorted [[var index, eta1, eta2]]"""
+    """MeanField -> sorted [[(flattened) var index, eta1, eta2]], one row per plate element"""
     out = []
     for v, m in mf.items():
         e = m.natural_parameters
-        out.append([index[v], hexf(e[0]), hexf(e[1])])
+        if m.shape:
+            for k in range(m.size):
+                out.append([index[v] * FLAT_W + k, hexf(e[0][k]), hexf(e[1][k])])
+        else:
+            out.append([index[v] * FLAT_W, hexf(e[0]), hexf(e[1])])
     return sorted(out)
 
 
 def bits(mf, index):
     """exact (mean, sigma) of every message, for the 'nothing else changed' check"""
-    return sorted([index[v], hexf(m.mean), hexf(m.sigma)] for v, m in mf.items())
+    out = []
+    for v, m in mf.items():
+        if m.shape:
+            for k in range(m.size):
+                out.append([index[v] * FLAT_W + k, hexf(m.mean[k]), hexf(m.sigma[k])])
+        else:
+            out.append([index[v] * FLAT_W, hexf(m.mean), hexf(m.sigma)])
+    return sorted(out)
 
 
 def msg(mean, sigma):
     return NormalMessage(unhex(mean), unhex(sigma))
 
 
+def mk_mf(rows, variables, plated=()):
+    """[[flattened id, mean, sigma]] -> MeanField (plate elements gathered into array messages, in row order)"""
+    groups = {}
+    for fv, mu, sg in rows:
+        groups.setdefault(fv // FLAT_W, []).append((unhex(mu), unhex(sg)))
+    d = {}
+    for b_, vals in groups.items():
+        if b_ in plated:
+            d[variables[b_]] = NormalMessage(np.array([x for x, _ in vals]), np.array([y for _, y in vals]))
+        else:
+            d[variables[b_]] = NormalMessage(*vals[0])
+    return MeanField(d)
+
+
 def make_delta(d, variables):
     if d["t"] == "scalar":
         return unhex(d["d"])
     if d["t"] == "pervar":
-        return MeanField({variables[v]: unhex(x) for v, x in d["ds"]})
+        return MeanField({variables[v // FLAT_W]: unhex(x) for v, x in d["ds"] if v % FLAT_W == 0})
     raise ValueError(d["t"])
 
 
 def build_raw(c):
-    nv = 1 + max(v for f in c["init"] for v, _, _ in f)
-    variables = [Variable("v%d" % i) for i in range(nv)]
+    global FLAT_W
+    plate = c.get("plate")
+    FLAT_W = 8 if plate else 1
+    nv = 1 + max(v // FLAT_W for f in c["init"] for v, _, _ in f)
+    pl = Plate("p") if plate else None
+    plated = set(plate["vars"]) if plate else set()
+    variables = [Variable("v%d" % i, pl) if i in plated else Variable("v%d" % i) for i in range(nv)]
     index = {v: i for i, v in enumerate(variables)}
     factors = []
-    for k, f in enumerate(c["factors"]):
+    for k, f in enumerate(c.get("base_factors", c["factors"])):
         def fn(*a, **kw):
             return 0.0
-        factors.append(Factor(fn, *[variables[v] for v in f], name="f%d" % k, arg_names=["a%d" % j for j in range(len(f))]))
+        kw = {"plates": (pl,)} if any(v in plated for v in f) else {}
+        factors.append(Factor(fn, *[variables[v] for v in f], name="f%d" % k,
+                              arg_names=["a%d" % j for j in range(len(f))], **kw))
     graph = FactorGraph(factors)
-    fmf = {factors[k]: MeanField({variables[v]: msg(mu, s) for v, mu, s in f}) for k, f in enumerate(c["init"])}
-    return variables, index, factors, EPMeanField(graph, fmf)
+    fmf = {factors[k]: mk_mf(f, variables, plated) for k, f in enumerate(c["init"])}
+    return variables, index, factors, EPMeanField(graph, fmf), pl, plated
 
 
 def state_obs(approx, factors, index):
@@ -84,7 +121,7 @@ def state_bits(approx, factors, index):
 
 
 def run_raw(c):
-    variables, index, factors, approx = build_raw(c)
+    variables, index, factors, approx, pl, plated = build_raw(c)
     out = {"state0": state_obs(approx, factors, index), "global0": nat(approx.mean_field, index), "steps": []}
     base = approx
     for s in c["steps"]:
@@ -92,12 +129,35 @@ def run_raw(c):
         if s.get("barrier"):
             base = approx
         src = base if s.get("stale") else approx
+        inplace = s["via"].startswith("inplace")
+        if inplace:
+            # reads on the object that is about to be updated IN PLACE (they must not be remembered)
+            approx.mean_field, approx.model_dist, approx.variable_messages, approx.variable_message_count
+            for g_ in factors:
+                approx.factor_approximation(g_)
         fa = src.factor_approximation(f)
-        new = MeanField({variables[v]: msg(mu, sg) for v, mu, sg in s["new"]})
+        # snapshot now: an indexed in-place write mutates the message arrays the approximation shares
+        pre = {"cavity": nat(fa.cavity_dist, index), "own": nat(fa.factor_dist, index), "model": nat(fa.model_dist, index)}
+        new = mk_mf(s["new"], variables, plated)
         before = state_bits(approx, factors, index)
         d = s["delta"]
         status_in = Status()
-        if s["via"] == "project":
+        if inplace:
+            idx = {pl: list(s["index"])} if s.get("index") is not None else None
+            fake = SimpleNamespace(factor_mean_field={"subset-factor": new}, _factor_subset_factor={f: "subset-factor"},
+                                   plates_index=idx)
+            if s["via"] == "inplace":            # stochastic EP write-back without plates
+                approx.update_factor_mean_field(f, new)
+            elif s["via"] == "inplace_index":
+                approx.update_factor_mean_field(f, new, idx)
+            elif s["via"] == "inplace_setitem":  # model_approx[batch] = subset_approx
+                approx[idx] = fake
+            elif s["via"] == "inplace_update":
+                assert approx.update(fake) is approx
+            else:
+                raise ValueError(s["via"])
+            approx2, status = approx, Status()
+        elif s["via"] == "project":
             approx2, status = approx.project_mean_field(new, fa, delta=make_delta(d, variables), status=status_in)
         elif s["via"] == "fa_project":
             # the same update through FactorApproximation.project_mean_field + EPMeanField.project_factor_approx
@@ -118,10 +178,18 @@ def run_raw(c):
             approx2, status = DynamicUpdater(unhex(d["d0"])).update_model_approx(new, fa, approx, status_in)
         else:
             raise ValueError(s["via"])
-        after_old = state_bits(approx, factors, index)
+        after_old = before if inplace else state_bits(approx, factors, index)
         after = state_bits(approx2, factors, index)
+        post = None
+        if inplace:
+            post = []
+            for g_ in factors:
+                pa = approx2.factor_approximation(g_)
+                post.append({"cavity": nat(pa.cavity_dist, index), "own": nat(pa.factor_dist, index),
+                             "model": nat(pa.model_dist, index)})
         out["steps"].append({
-            "cavity": nat(fa.cavity_dist, index), "own": nat(fa.factor_dist, index), "model": nat(fa.model_dist, index),
+            "post": post, "global_alias": nat(approx2.model_dist, index),
+            "cavity": pre["cavity"], "own": pre["own"], "model": pre["model"],
             "msg": nat(approx2.factor_mean_field[f], index), "global": nat(approx2.mean_field, index),
             "state": state_obs(approx2, factors, index),
             "success": bool(status.success), "updated": bool(status.updated),
@@ -224,7 +292,7 @@ def access_obs(hist, factors):
 
 
 def run_par(c):
-    variables, index, factors, approx = build_raw(c)
+    variables, index, factors, approx, _pl, _plated = build_raw(c)
     rec = Recorder(c["scripts"], factors, variables, index)
     hist = make_history(factors, c.get("stop"))
     order = [factors[i] for i in c["order"]]
@@ -353,6 +421,8 @@ def run_decl(c):
 
 
 def run_case(c):
+    global FLAT_W
+    FLAT_W = 1
     if c["kind"] == "raw":
         return run_raw(c)
     if c["kind"] == "par":
